@@ -85,6 +85,10 @@ def job(chk, todo):
                 chk.undecide('%s [%s]: %s' % (d, label, u))
                 native_compose(chk, d, label, whole, a1, a2, None)
                 continue
+            pan = lambda rs: any(isinstance(x, tuple) for x in rs)
+            if pan(rw) and (pan(r1) or pan(r2)):
+                chk.ok()            # an item that makes the detector panic on its own is C04's subject, not a composition failure
+                continue
             if len(rw) == 1 and len(r1) == 1 and len(r2) == 1 and not isinstance(rw[0], tuple) and not isinstance(r1[0], tuple) \
                     and not isinstance(r2[0], tuple) and rw[0] == (r1[0] | r2[0]):
                 chk.ok()
@@ -137,6 +141,8 @@ def native_compose(chk, d, label, whole, a1, a2, why, validate_only=False):
         if why is not None and not validate_only:
             chk.broken('%s [%s]: engine says the findings do not compose (%s) but the real detector composes on\n%s' % (d, label, why, text))
         return
+    if s1 is None or s2 is None:
+        return                                     # an item panics on its own: C04's subject
     role = 'panic-only-in-the-whole-file' if panics_only_whole else ('finding-lost' if sw is not None and (s1 | s2) - sw else 'finding-added')
     chk.violation('%s:compose:%s' % (d, role),
                   '%s on `%s`: whole file reports starts %r, the items alone %r and %r' % (d, label, sorted(sw) if sw is not None else res[0], sorted(s1) if s1 is not None else res[1],
